@@ -57,6 +57,14 @@ CHECKS = {
         "technique": "round-trip property-based testing (rapid) + enumeration of flags and info sizes against a reference frame-layout parser",
         "assumptions": [IO_ASSUME, "the TTHeader layout reference in harness/ref/ttheader.go (written from the layout comment and the public TTHeader description) is correct"],
     },
+    "C07": {
+        "run": "^TestC07_",
+        "level": "exploration",
+        "level_text": "Go-map model oracle over generated load histories (reloads growing and shrinking, zero-key loads, failing loads, never-loaded instances) for StrMap[int], StrMap[struct], Str2Str and strstore, with key families aimed at prefixes, near-duplicates, binary content and every small table size; each case on 4-8 fresh instances so that collision chains vary with the hash seed.",
+        "level_note": "Trusted: Go's built-in map, the key-family expander. hash/maphash seeds are process-random and cannot be injected, so a seed-dependent failure replays only statistically (the replay runs the case on several fresh instances).",
+        "technique": "model-based property testing (rapid) against a Go map reference, plus enumeration of table sizes",
+        "assumptions": ["keys of one load are distinct (the property's domain)", "hash seeds are chosen by the runtime"],
+    },
     "C08": {
         "run": "^TestC08_",
         "level": "exploration",
